@@ -472,7 +472,9 @@ func (e *kvElection) attemptPriorityTakeover(payloadBytes []byte) error {
 
 	var currentPayload leadershipPayload
 	if err := json.Unmarshal(entry.Value(), &currentPayload); err != nil {
-		return e.attemptAcquire()
+		// do not recurse into attemptAcquire: with the unreadable record still in place
+		// that never terminates; the caller's retry/back-off decides about the next attempt
+		return fmt.Errorf("current leadership record is not readable: %w", err)
 	}
 
 	if e.cfg.Priority <= currentPayload.Priority {
